@@ -210,8 +210,6 @@ func splitLinesKeep(s string) []string {
 	return out
 }
 
-func trimNL(b []byte) []byte { return bytes.TrimSuffix(b, []byte("\n")) }
-
 // expectedDisplay recomputes, from the unlimited ranked result and the corpus text, what a display-limited search must
 // return: the first D files, matches counted in order until M, the last file cut there; a cut chunk's Content is the
 // text's whole lines from ContentStart.LineNumber through (last remaining range's end line + ctx).
@@ -313,9 +311,11 @@ func compareDisplay(got, unl []zoekt.FileMatch, c e2eCase, texts map[string]stri
 			g, w := normFile(got[i]), normFile(want[i])
 			if i == cutFile && len(g.ChunkMatches) == len(w.ChunkMatches) {
 				gc, wc := g.ChunkMatches[cutChunk], w.ChunkMatches[cutChunk]
-				if !bytes.Equal(trimNL(gc.Content), trimNL(wc.Content)) {
-					short := clipped && len(gc.Content) < len(wc.Content) && bytes.HasPrefix(wc.Content, trimNL(gc.Content)) &&
-						(len(trimNL(gc.Content)) == len(wc.Content) || wc.Content[len(trimNL(gc.Content))] == '\n')
+				// equal, or equal up to the terminator of the last line
+				if !bytes.Equal(gc.Content, wc.Content) && !bytes.Equal(append(append([]byte(nil), gc.Content...), '\n'), wc.Content) {
+					g2 := gc.Content
+					short := clipped && len(g2) < len(wc.Content) && bytes.HasPrefix(wc.Content, g2) &&
+						(len(g2) == 0 || g2[len(g2)-1] == '\n' || wc.Content[len(g2)] == '\n')
 					if short {
 						kind = "chunk-context-short-at-eof"
 					} else {
